@@ -358,7 +358,8 @@ fn gen(tier: &str, seed: u64, out: &mut dyn FnMut(String)) {
     //      first / in the middle / last; the identity order; extents that are / are not multiples of 64; exactly 2^20 elements and
     //      2^20 + a little; every operation.  Quick: one to three calls per shape; thorough: every rotation, swaps, moves, rolls.
     let mut giants = giant_shapes();
-    giants.extend(vec![vec![1024, 1024], vec![1024, 1025], vec![1088, 1024], vec![128, 128, 64], vec![128, 65, 128], vec![33, 32, 31, 33], vec![2, 2, 2, 131_073], vec![16, 65, 16, 64], vec![1, 1_048_577], vec![1_048_583, 1]]);
+    giants.extend(vec![vec![1024, 1024], vec![1024, 1025], vec![1088, 1024], vec![128, 128, 64], vec![128, 65, 128], vec![33, 32, 31, 33], vec![2, 2, 2, 131_073], vec![16, 65, 16, 64], vec![1, 1_048_577], vec![1_048_583, 1],
+                       vec![1449, 1451], vec![2, 1025, 1025], vec![2, 1_048_579]]);   // above 2^21 with rank >= 2; one lane above 2^20
     if thorough { giants.extend(vec![vec![16, 16, 16, 16, 17], vec![3, 5, 7, 11, 13, 73], vec![2048, 1023], vec![2, 1_048_575]]); }
     let quick_calls: &[(&[usize], &[&str])] = &[
         (&[1 << 20 | 5], &["transpose=none"]),
@@ -378,6 +379,9 @@ fn gen(tier: &str, seed: u64, out: &mut dyn FnMut(String)) {
         (&[2, 2, 2, 131_073], &["rollaxis=3=1", "transpose=0,1,2,3"]),
         (&[16, 65, 16, 64], &["transpose=3,1,0,2", "swapaxes=1=2"]),
         (&[1, 1_048_577], &["transpose=none"]),
+        (&[1449, 1451], &["transpose=none"]),
+        (&[2, 1025, 1025], &["transpose=1,2,0"]),
+        (&[2, 1_048_579], &["swapaxes=0=1"]),
     ];
     for (gi, s) in giants.iter().enumerate() {
         let (a, nd) = (format!("iota:{}", show_list(s)), s.len());
@@ -717,7 +721,18 @@ thread_local! {
 
 fn mismatch(observed: String, detail: String) -> Option<Verdict> { Some(Verdict::Mismatch { observed, detail }) }
 
+/// `VERIF_SLOW=<seconds>`: case lines that take longer are listed on stderr (used to keep every giant case far below `hang_secs`)
 fn exec(op: &str, args: &[&str], expected: &str) -> Option<Verdict> {
+    let t0 = std::time::Instant::now();
+    let v = exec_case(op, args, expected);
+    if let Some(limit) = std::env::var("VERIF_SLOW").ok().and_then(|s| s.parse::<f64>().ok()) {
+        let dt = t0.elapsed().as_secs_f64();
+        if dt > limit { eprintln!("SLOW {dt:.2}s {op} {}", truncate(&args.join(" "), 120)); }
+    }
+    v
+}
+
+fn exec_case(op: &str, args: &[&str], expected: &str) -> Option<Verdict> {
     match op {
         // last line: how often the native reference was validated against the model in this run
         "audit" => {
@@ -882,6 +897,8 @@ fn nontrivial(op: &str, args: &[&str]) -> bool {
 }
 
 fn main() {
-    harness_main(Spec { prop: "C06", gen, exec, nontrivial, hang_secs: 20,
-        rule: "exhaustive: every shape rank<=4 len<=3 (+ 15 shapes with zero-length axes incl. [0,0],[0,3],[2,0,3]) x every permutation of its axes x sign spellings (all 2^rank for rank<=3 / thorough; 3 patterns for rank 4 quick); every (i,j) x 4 spellings for swapaxes / single-axis moveaxis / rollaxis(+None); every ordered pair of sources x destinations for 2-axis moveaxis, sampled 3+-axis lists; malformed stream (axis = ndim, ndim+1, -ndim-1, +-1000, repeated axes, wrong lengths); chains (permutation then inverse, same call twice, roll/move back, error passed on); seeded random rank 5 (6 in thorough) len<=4. Sizes: big_shapes() (axis lengths 7-17 in every position, counts >256/>1024/>4096 up to 70x70), every matrix r,c in 7..=17 x 11 spellings of the flip, matrices around 32 (thorough: 64) and long thin ones, rank 3 over {1,2,8,9,17}^3, random rank 2-5 with long axes, round-trip chains on big shapes. EVERY case runs on i64 tags (compared with the model) and on the u8, i8, u64>2^53, f64(-0.0), f32(-0.0), f64 special values (NaN, subnormal, +-0, inf; bit-wise), bool, String, char images, each on the plain AND the Ok(array) receiver. Tag arrays: shape AND every element compared. PART 2: a harness-native reference (axis order from the documented meaning + gather by coordinates) is validated against the model's full answer on EVERY case; huge shapes (`huge`: huge_shapes() + 7 more, 16 384..140 000 elements, every rotation order, swaps, moves, rolls, non-rotations): the model answers the axis order (read off its own transpose on the all-2 stand-in of the same rank), elements by the validated native gather (`audit` demands >= 1000 validations); hidden state: `pair` = two shapes colliding under weak keys (polynomial hashes with multipliers 31,33,37,131,257; equal count; permuted lengths; lengths + 256 / + 65536) on a fresh thread A B A, then on another fresh thread B A B; every case <= 700 elements also runs A-B-A inside exec against a partner shape of that kind (partner judged by the native reference), and for a third of the lines the previous line is re-executed; every axis length 1..300 leading and non-leading; axis arguments c+2^8, c+2^16, c+2^32, 3*2^32 (must be refused), each refusal followed by a valid call; ranks 4..8 with 3..6-entry moveaxis lists (every ordering of three destinations), mixed spellings. PART 3: (12) element layout - every case also runs on element types of 2, 3, 5, 6, 9, 12, 16, 20, 32 (not Copy), 36, 40, 48 bytes (single calls: on_layouts_arr! on the plain receiver + the Ok(array) receiver; chains: both; a rotating pair of the further sizes per case), plus every matrix r,c in 1..=6 x 11 spellings of the flip, matrices with lengths around the tile edges 5/10/12/21/42/63 and rank 3/4 shapes with them; (11) `giant iota:SHAPE step`: 20 (thorough 24) shapes with 2^20 .. 2.2*10^6 elements, ranks 1-4 (thorough 6), exactly 2^20 and just above, extents multiples / non-multiples of 64, moved axis first / middle / last, identity order, all four operations (quick 27 calls + 3 refusal lines; thorough every rotation, swaps, moves, rolls, a random order: ~250 calls) - the model answers the axis order, every element compared in place with the validated native gather formula on i64 (plain), u8 (Ok(array)) and for a third of the lines the 12-byte tuple; thorough: four `giant8` cases above 2^24 elements (u8 only); (13) constant / all-zero arrays and Thue-Morse mixtures of tags that are == but not identical in the bit-wise compared f64 image (-0.0/+0.0, two NaNs) on 15 (19) shapes; (15) axis arguments isize::MAX, isize::MIN (+ndim, +2^32), +-2^62, 2^64/d + c for d in 3,4,5,6,8,12 in every argument position, each refusal followed by a valid call. non-trivial = >=2 axes longer than 1" });
+    // hang watchdog: the slowest case lines (timed with VERIF_SLOW under a load average of 22: `giant8` 0.8 s, `giant` 0.5 s, `pair` with a
+    // 65 539-long axis 0.8 s) keep a margin of more than 50x
+    harness_main(Spec { prop: "C06", gen, exec, nontrivial, hang_secs: 45,
+        rule: "exhaustive: every shape rank<=4 len<=3 (+ 15 shapes with zero-length axes incl. [0,0],[0,3],[2,0,3]) x every permutation of its axes x sign spellings (all 2^rank for rank<=3 / thorough; 3 patterns for rank 4 quick); every (i,j) x 4 spellings for swapaxes / single-axis moveaxis / rollaxis(+None); every ordered pair of sources x destinations for 2-axis moveaxis, sampled 3+-axis lists; malformed stream (axis = ndim, ndim+1, -ndim-1, +-1000, repeated axes, wrong lengths); chains (permutation then inverse, same call twice, roll/move back, error passed on); seeded random rank 5 (6 in thorough) len<=4. Sizes: big_shapes() (axis lengths 7-17 in every position, counts >256/>1024/>4096 up to 70x70), every matrix r,c in 7..=17 x 11 spellings of the flip, matrices around 32 (thorough: 64) and long thin ones, rank 3 over {1,2,8,9,17}^3, random rank 2-5 with long axes, round-trip chains on big shapes. EVERY case runs on i64 tags (compared with the model) and on the u8, i8, u64>2^53, f64(-0.0), f32(-0.0), f64 special values (NaN, subnormal, +-0, inf; bit-wise), bool, String, char images, each on the plain AND the Ok(array) receiver. Tag arrays: shape AND every element compared. PART 2: a harness-native reference (axis order from the documented meaning + gather by coordinates) is validated against the model's full answer on EVERY case; huge shapes (`huge`: huge_shapes() + 7 more, 16 384..140 000 elements, every rotation order, swaps, moves, rolls, non-rotations): the model answers the axis order (read off its own transpose on the all-2 stand-in of the same rank), elements by the validated native gather (`audit` demands >= 1000 validations); hidden state: `pair` = two shapes colliding under weak keys (polynomial hashes with multipliers 31,33,37,131,257; equal count; permuted lengths; lengths + 256 / + 65536) on a fresh thread A B A, then on another fresh thread B A B; every case <= 700 elements also runs A-B-A inside exec against a partner shape of that kind (partner judged by the native reference), and for a third of the lines the previous line is re-executed; every axis length 1..300 leading and non-leading; axis arguments c+2^8, c+2^16, c+2^32, 3*2^32 (must be refused), each refusal followed by a valid call; ranks 4..8 with 3..6-entry moveaxis lists (every ordering of three destinations), mixed spellings. PART 3: (12) element layout - every case also runs on element types of 2, 3, 5, 6, 9, 12, 16, 20, 32 (not Copy), 36, 40, 48 bytes (single calls: on_layouts_arr! on the plain receiver + the Ok(array) receiver; chains: both; a rotating pair of the further sizes per case), plus every matrix r,c in 1..=6 x 11 spellings of the flip, matrices with lengths around the tile edges 5/10/12/21/42/63 and rank 3/4 shapes with them; (11) `giant iota:SHAPE step`: 23 (thorough 27) shapes with 2^20 .. 2.2*10^6 elements (three above 2^21 with rank >= 2), ranks 1-4 (thorough 6), exactly 2^20 and just above, extents multiples / non-multiples of 64, moved axis first / middle / last, identity order, all four operations (quick 30 calls + 3 refusal lines; thorough every rotation, swaps, moves, rolls, a random order: ~250 calls) - the model answers the axis order, every element compared in place with the validated native gather formula on i64 (plain), u8 (Ok(array)) and for a third of the lines the 12-byte tuple; thorough: four `giant8` cases above 2^24 elements (u8 only); (13) constant / all-zero arrays and Thue-Morse mixtures of tags that are == but not identical in the bit-wise compared f64 image (-0.0/+0.0, two NaNs) on 15 (19) shapes; (15) axis arguments isize::MAX, isize::MIN (+ndim, +2^32), +-2^62, 2^64/d + c for d in 3,4,5,6,8,12 in every argument position, each refusal followed by a valid call. non-trivial = >=2 axes longer than 1" });
 }
